@@ -54,6 +54,13 @@ def gen_column(r, n, kind):
         return [Fraction(r.randint(0, 30) + r.choice([0, 1000]), 2) for _ in range(n)]
     if kind == "constant":
         return [Fraction(7, 2)] * n
+    if kind == "doubles":     # arbitrary doubles (53-bit mantissas): lo + (hi - lo) is NOT exact for these
+        xs = [Fraction(r.uniform(-50.0, 50.0)) for _ in range(n)]
+        if r.random() < 0.4:
+            xs[r.randrange(n)] = Fraction(r.choice([-1e16, 1e16, 3.3e12, -7.7e9]))
+        return xs
+    if kind == "counts":      # non-negative integers (detector counts, pixel values): unsigned dtypes apply
+        return [Fraction(r.randint(0, r.choice([12, 250, 60000]))) for _ in range(n)]
     if kind == "wide8":       # spans almost the whole int8 range: differences overflow int8
         return [Fraction(r.randint(-120, 120)) for _ in range(n)]
     if kind == "wide16":
@@ -61,7 +68,7 @@ def gen_column(r, n, kind):
     raise ValueError(kind)
 
 
-KINDS = ["ties", "ints", "dyadic", "outliers", "bimodal", "constant", "wide8", "wide16"]
+KINDS = ["ties", "ints", "dyadic", "outliers", "bimodal", "constant", "wide8", "wide16", "doubles", "doubles", "counts", "counts"]
 
 
 def gen_fraction(r, n):
@@ -124,7 +131,7 @@ def gen_case(r, tier):
         fits = [t for t in ("int8", "int16", "int32", "uint8", "uint16", "uint32", "uint64")
                 if np.iinfo(t).min <= lo_v and hi_v <= np.iinfo(t).max]
         if fits:
-            dtype = fits[0] if any(k.startswith("wide") for k in kinds) else r.choice(fits[:3])
+            dtype = fits[0] if any(k.startswith("wide") for k in kinds) else r.choice(fits)
     f = gen_fraction(r, n)
     return {"cols": cols, "kinds": kinds, "n": n, "fraction": f, "dtype": dtype,
             "container": container}
@@ -193,6 +200,9 @@ def oracle(case, res):
         cnt = sum(1 for x in s if lo <= x <= hi)
         if Fraction(cnt) < f * n:
             bad.append(f"column {ci}: interval holds {cnt} of {n} points < fraction {float(f)}")
+        if cnt == 0 or lo > hi:
+            bad.append(f"column {ci}: the reported interval ({lo}, {hi}) is empty")
+            continue
         # no interval between two sample values containing as many points is shorter
         best = None
         j = 0
@@ -220,7 +230,8 @@ def metamorphic(case, res, r):
     a = Fraction(r.choice([2, 3, 8]), r.choice([1, 2, 4]))
     b = Fraction(r.randint(-64, 64), 2)
     big = max(abs(x) for col in case["cols"] for x in col)
-    if big < 2 ** 20 and case["dtype"] == "float":
+    few_bits = all(x.denominator <= 2 ** 16 for col in case["cols"] for x in col)   # a*x + b exact in double
+    if big < 2 ** 20 and case["dtype"] == "float" and few_bits:
         c3 = dict(case, cols=[[a * x + b for x in col] for col in case["cols"]])
         o3 = run_impl(c3)
         want = [(a * lo + b, a * hi + b) for lo, hi in res]
